@@ -217,12 +217,14 @@ theorem LinFLeaf.defaultComp_endOk (l : LinFLeaf) (dv : IVal) (om : Bool) : (l.d
 /-! ### DTC-DOP with a LINEAR compu method (trouble code = linear image of the coded value)
 
     `DtcDop.encode_into_pdu`: `convert_to_numerical_trouble_code`, then `int(compu_method.convert_physical_to_internal(tc))`
-    — **no** `is_valid_physical_value`, **no** `is_valid_internal_value` —, then the look-up "is the *internal* value one of
-    the `trouble_code`s of the DTCs" (sic: the coded value is compared with the physical trouble codes), then the diag-coded
-    type.  `decode_from_pdu`: diag-coded type, `is_valid_internal_value`, `convert_internal_to_physical`, the result must be
-    an `int` with exactly one DTC.  So the round trip needs BOTH the trouble code `z` (decoder) AND its coded value `i`
-    (encoder) in the DTC list — clause `known_internal` below is forced by the encoder's look-up; see
-    `Props/C01Nested3b.lean` for the excluded point run on odxtools. -/
+    — **no** `is_valid_physical_value`, **no** `is_valid_internal_value` —, then the look-up "is the (physical) trouble code one
+    of the `trouble_code`s of the DTCs", then the diag-coded type.  `decode_from_pdu`: diag-coded type,
+    `is_valid_internal_value`, `convert_internal_to_physical`, the result must be an `int` with exactly one DTC.
+    History: before the fix `c03-dtc-dop-encoder-compares-coded-value` the encoder looked the CODED value up among the
+    (physical) trouble codes; the round trip then needed a clause `known_internal` (`dtcs.any (·.1 == i)`) in `ok`, which the
+    proof forced and `DtcLinLeaf.encode_unknown_internal` showed to be sharp.  That was a defect of odxtools (C03: the encoder
+    refused DTCs its own decoder returns); after the repair the clause is gone — encoder and decoder look up the same
+    (physical) code `z` — and `DtcLinLeaf.encode_described` states that every described DTC is accepted. -/
 
 structure DtcLinLeaf where
   o : Obj
@@ -241,8 +243,7 @@ def DtcLinLeaf.ok (l : DtcLinLeaf) : Prop :=
   l.s.physApplies (.int l.z) = .ok true ∧ exactP l.s l.z = true ∧ (Method.linear l.s).p2i (.int l.z) = .ok (.int l.i) ∧
   (Method.linear l.s).validI (.int l.i) = .ok true ∧ exactI l.s l.i = true ∧
   (Method.linear l.s).i2p (.int l.i) = .ok (.int l.z) ∧
-  (l.dtcs.any fun d => d.1 == l.i) = true ∧                -- `known_internal`: what the ENCODER looks up (the coded value!)
-  (l.dtcs.filter fun d => d.1 == l.z).length = 1           -- what the DECODER looks up (the trouble code), exactly once
+  (l.dtcs.filter fun d => d.1 == l.z).length = 1           -- what encoder AND decoder look up (the trouble code), exactly once
 
 /-- what `convert_to_numerical_trouble_code` accepts for the trouble code `z` -/
 def DtcLinLeaf.supOk (l : DtcLinLeaf) : PVal → Prop
@@ -250,6 +251,16 @@ def DtcLinLeaf.supOk (l : DtcLinLeaf) : PVal → Prop
   | .atom (.int c) => c = l.z
   | .atom (.str cps) => ∃ d, (l.dtcs.filter fun d => d.2.toList.map Char.toNat == cps) = [d] ∧ d.1 = l.z
   | _ => False
+
+/-- the trouble code is known (what the repaired encoder looks up) -/
+theorem DtcLinLeaf.known (l : DtcLinLeaf) (h : l.ok) : (l.dtcs.any fun d => d.1 == l.z) = true := by
+  have h1 := h.2.2.2.2.2.2.2.2.2.2
+  cases hf : l.dtcs.filter fun d => d.1 == l.z with
+  | nil => rw [hf] at h1; cases h1
+  | cons d ds =>
+    have hmem : d ∈ l.dtcs.filter fun d => d.1 == l.z := by rw [hf]; exact List.mem_cons_self ..
+    rw [List.mem_filter] at hmem
+    exact List.any_eq_true.mpr ⟨d, hmem.1, hmem.2⟩
 
 theorem dtcP2I_linear_int {σ : Type} (s : LinSeg) (z i : Int) (hpa : s.physApplies (.int z) = .ok true)
     (hex : exactP s z = true) (hconv : (Method.linear s).p2i (.int z) = .ok (.int i)) (st : σ) (strict : Bool) :
@@ -269,7 +280,8 @@ theorem dtcI2P_linear_int {σ : Type} (arith : Err) (s : LinSeg) (i z : Int) (hd
 theorem DtcLinLeaf.convOk (l : DtcLinLeaf) (h : l.ok) (sup : PVal) (hs : l.supOk sup) :
     ConvOk l.dop l.o.dct sup (.dtc l.z) (.int l.i) where
   enc := by
-    obtain ⟨_, _, hm, _, hpa, hexP, hp2i, _, _, _, hk, _⟩ := h
+    have hk := l.known h
+    obtain ⟨_, _, hm, _, hpa, hexP, hp2i, _, _, _, _⟩ := h
     intro f es
     have hm' : (CCompu.linear l.d).method? l.o.dct.baseType l.phys = some (.linear l.s) := by
       simp [CCompu.method?, Obj.dct_baseType, hm]
@@ -288,7 +300,7 @@ theorem DtcLinLeaf.convOk (l : DtcLinLeaf) (h : l.ok) (sup : PVal) (hs : l.supOk
       obtain ⟨d, hd, hc⟩ := hs
       simp [hm', hconv, bind, run_bind, pure, run_pure, hk, hd, hc]
   dec := by
-    obtain ⟨_, _, hm, hd, _, _, _, hvi, hexI, hi2p, _, hone⟩ := h
+    obtain ⟨_, _, hm, hd, _, _, _, hvi, hexI, hi2p, hone⟩ := h
     intro f ds ds' hdec
     have hm' : (CCompu.linear l.d).method? l.o.dct.baseType l.phys = some (.linear l.s) := by
       simp [CCompu.method?, Obj.dct_baseType, hm]
@@ -314,11 +326,29 @@ theorem DtcLinLeaf.constComp_ok (l : DtcLinLeaf) (h : l.ok) (b : Bool) : (l.cons
   Comp.ofConvPhysConst_ok _ _ _ _ _ b h.1 h.2.1 (l.convOk h (.dtc l.z) rfl) (by simp [pvalEq]) (by simp [pvalEq])
 theorem DtcLinLeaf.constComp_endOk (l : DtcLinLeaf) (b : Bool) : (l.constComp b).EndOk := Comp.ofConvPhysConst_endOk _ _ _ _ _ b
 
-/-- **the forced hypothesis is sharp**: inside the guard, if the coded value is NOT among the trouble codes of the DTC list,
-    strict `DtcDop.encode_into_pdu` of the (defined!) trouble code raises EncodeError ("Unknown diagnostic trouble code") -/
-theorem DtcLinLeaf.encode_unknown_internal (l : DtcLinLeaf) (hm : linMethod? l.d l.o.bt l.phys = some (.linear l.s))
+/-- **the repaired encoder accepts every described DTC** (replaces `DtcLinLeaf.encode_unknown_internal`, which held for the
+    unrepaired encoder and is false now): for a LINEAR DTC-DOP, if the trouble code `z` is the trouble code of some DTC of
+    the list and is the exact image of the coded value `i` (inside the guard of the LINEAR method), strict
+    `DtcDop.encode_into_pdu` of the trouble code (given as DTC object or as number) does exactly what the diag-coded type
+    does with `i` — no "Unknown diagnostic trouble code", whatever ELSE the DTC list contains (in particular `i` need not be
+    a trouble code). -/
+theorem DtcLinLeaf.encode_described (l : DtcLinLeaf) (hm : linMethod? l.d l.o.bt l.phys = some (.linear l.s))
     (hpa : l.s.physApplies (.int l.z) = .ok true) (hexP : exactP l.s l.z = true)
-    (hp2i : (Method.linear l.s).p2i (.int l.z) = .ok (.int l.i)) (hk : (l.dtcs.any fun d => d.1 == l.i) = false)
+    (hp2i : (Method.linear l.s).p2i (.int l.z) = .ok (.int l.i)) (hk : (l.dtcs.any fun d => d.1 == l.z) = true)
+    (f : Nat) (es : EncState) :
+    encodeDop (f + 1) l.dop (.dtc l.z) es true = encodeDct l.o.dct (.int l.i) es true ∧
+    encodeDop (f + 1) l.dop (.atom (.int l.z)) es true = encodeDct l.o.dct (.int l.i) es true := by
+  have hm' : (CCompu.linear l.d).method? l.o.dct.baseType l.phys = some (.linear l.s) := by
+    simp [CCompu.method?, Obj.dct_baseType, hm]
+  have hconv := fun (e : EncState) => dtcP2I_linear_int l.s l.z l.i hpa hexP hp2i e true
+  unfold DtcLinLeaf.dop encodeDop
+  constructor <;> simp [hm', hconv, bind, run_bind, pure, run_pure, hk]
+
+/-- conversely the look-up is still there: a trouble code that no DTC of the list has is refused in strict mode
+    (EncodeError "Unknown diagnostic trouble code"), also when its coded value happens to be the trouble code of a DTC -/
+theorem DtcLinLeaf.encode_unknown (l : DtcLinLeaf) (hm : linMethod? l.d l.o.bt l.phys = some (.linear l.s))
+    (hpa : l.s.physApplies (.int l.z) = .ok true) (hexP : exactP l.s l.z = true)
+    (hp2i : (Method.linear l.s).p2i (.int l.z) = .ok (.int l.i)) (hk : (l.dtcs.any fun d => d.1 == l.z) = false)
     (f : Nat) (es : EncState) : encodeDop (f + 1) l.dop (.atom (.int l.z)) es true = .error (.encode, es) := by
   have hm' : (CCompu.linear l.d).method? l.o.dct.baseType l.phys = some (.linear l.s) := by
     simp [CCompu.method?, Obj.dct_baseType, hm]
